@@ -270,6 +270,8 @@ def body(chk):
     chk.assumptions += ['Duration / Instant are abstract 64-bit nanosecond values; Instant::elapsed returns an arbitrary value (symbolic clock)',
                         'run_scenario\'s `retries.filter(|_| is_failed).and_then(next_try)` lives in a multi-poll coroutine (see DESIGN: stage M3)']
     sched.insert_scenarios_obligations(chk, 'C05')
+    from checks import insert_retry
+    insert_retry.obligations(chk, 'C05')
     sched.get_obligations(chk, 'C05', focus='deadline')
     from checks import sched_worlds
     sched_worlds.run(chk, 'C05')
